@@ -15,6 +15,7 @@ pub fn info() -> PropInfo {
         rule: "proptest histories: issued SD-JWT x chain sel1 >= ... >= selk (k<=4; each step deselects nodes by a choice stream: true->false, member dropped, container selector -> true/false, array selector shortened) x format; oracle: holder(issued).present(selk) vs holder(...holder(issued).present(sel1)...).present(selk): both Ok, same disclosure multiset == issued strings of select(tree, selk), same verified claims == view. Non-trivial: k>=2 and some step removes a disclosure. Distinct: hash of the case JSON.",
         assumptions: &["no key-binding JWT anywhere in the chain (the property's precondition)", "void when issuance fails (C01/C05's subject)"],
         needs_mock: false,
+        rounds: 4,
     }
 }
 
